@@ -11,6 +11,7 @@ import (
 	"regexp"
 	"runtime"
 	"sort"
+	"strconv"
 	"strings"
 	"sync"
 	"sync/atomic"
@@ -51,6 +52,8 @@ func (c Call) String() string {
 		return fmt.Sprintf("TaskRetries(t%d, %d)", c.A, c.R)
 	case "addnil":
 		return "AddTask(nil)"
+	case "addnofn":
+		return fmt.Sprintf("AddTask(&Task{ID: t%d, Fn: nil})", c.A)
 	case "depnil":
 		return fmt.Sprintf("TaskDependsOn(t%d, nil)", c.A)
 	}
@@ -104,6 +107,9 @@ type Spec struct {
 	RetriesOnlyG0 bool `json:"retries_only_g0,omitempty"` // shared-task workloads: TaskRetries calls are made on graph 0 only, the other graphs use the tasks without retries
 	Colon         bool `json:"colon,omitempty"`           // task IDs with colons chosen so that "<id>:<dependency id>" of two different edges is the same text
 	QuietMask     int  `json:"quiet_mask,omitempty"`      // buffered runs: tasks (bit i) that write nothing
+	Space         bool `json:"space,omitempty"`           // task IDs end in a blank (IDs are compared as written, lookups included)
+	Redefine      bool `json:"redefine,omitempty"`        // shared-task workloads: graphs 1.. first define every ID with a private Task object and, after the history, once more with the shared one
+	ValWriter     bool `json:"val_writer,omitempty"`      // the output writer is passed as a struct value with a slice field (not comparable, not hashable)
 	Nested        bool `json:"nested,omitempty"`          // buffered runs: the first attempt of task 0 runs a buffered graph of its own (three writing tasks) with the context it was given
 }
 
@@ -141,6 +147,8 @@ func BuildModel(n int, hist []Call) *Model {
 			add(c.A)
 		case "addnil":
 			m.DefErr = true
+		case "addnofn":
+			m.DefErr = true // a task without a function is a definition error whether or not its ID is known
 		case "depnil":
 			add(c.A)
 			m.DefErr = true
@@ -391,6 +399,14 @@ func (w *plainWriter) Write(p []byte) (int, error) {
 }
 
 var errWriter = errors.New("verif: output writer failure")
+
+// valWriter - an io.Writer passed by value whose type is neither comparable nor hashable (slice field).
+type valWriter struct {
+	w   *plainWriter
+	pad []int
+}
+
+func (v valWriter) Write(p []byte) (int, error) { return v.w.Write(p) }
 
 // deadlineCtx - a context that reports DeadlineExceeded when its parent is cancelled (a deadline, from the scheduler's point of view).
 type deadlineCtx struct{ context.Context }
@@ -675,6 +691,13 @@ func (r *runner) build(gi int, tasks []*dag.Task) *dag.Graph {
 			}
 		}
 	}
+	if r.spec.Redefine && gi > 0 {
+		for i, t := range tasks {
+			if r.model.InGraph[i] {
+				g.AddTask(dag.NewTask(string(t.ID), t.Fn)) // same ID and function, an object (and lock) of its own
+			}
+		}
+	}
 	for ci, c := range r.spec.Hist {
 		if r.spec.SortAt > 0 && ci == r.spec.SortAt {
 			_, _ = g.DepthFirstSort() // a caller may sort (or validate) a graph it is still building
@@ -684,6 +707,8 @@ func (r *runner) build(gi int, tasks []*dag.Task) *dag.Graph {
 			g.AddTask(tasks[c.A])
 		case "addnil":
 			g.AddTask(nil)
+		case "addnofn":
+			g.AddTask(&dag.Task{ID: tasks[c.A].ID})
 		case "depnil":
 			g.TaskDependsOn(tasks[c.A], nil)
 		case "retries":
@@ -700,6 +725,14 @@ func (r *runner) build(gi int, tasks []*dag.Task) *dag.Graph {
 			g.TaskDependsOn(tasks[c.A], deps...)
 		}
 	}
+	if r.spec.Redefine && gi > 0 {
+		// ... and every ID is defined once more with the shared object, after the edges exist
+		for i, t := range tasks {
+			if r.model.InGraph[i] {
+				g.AddTask(t)
+			}
+		}
+	}
 	r.preLinks(g, tasks)
 	if r.spec.Serial || r.spec.SerialMask&(1<<uint(gi)) != 0 {
 		g.SetSerial()
@@ -708,7 +741,11 @@ func (r *runner) build(gi int, tasks []*dag.Task) *dag.Graph {
 		g.SetMaxParallel(r.spec.MaxPar)
 	}
 	if r.spec.Buffer {
-		g.SetOutputBuffer(r.out)
+		if r.spec.ValWriter {
+			g.SetOutputBuffer(valWriter{w: r.out, pad: []int{1}})
+		} else {
+			g.SetOutputBuffer(r.out)
+		}
 	}
 	return g
 }
@@ -1046,6 +1083,20 @@ func Execute(spec *Spec) *Trace {
 				want := ip
 				if want > limit {
 					want = limit
+				}
+				if !forceQ && stable >= 2000 && nParked > 0 && nParked < want && int(atomic.LoadInt32(&r.live)) == nParked {
+					// work conservation: more vertices are in progress than task functions were entered, the configured limit
+					// has room, the scheduler only idles and the goroutines that did not get to their function are blocked
+					if blocked, gdesc := taskGoroutinesBlocked(); blocked && int(atomic.LoadInt32(&r.live)) == nParked {
+						lim := "none"
+						if limit < 1<<20 {
+							lim = strconv.Itoa(limit)
+						}
+						tr.Stalled = fmt.Sprintf("only %d of %d launched tasks were let into their function although capacity remains (limit %s) and the scheduler has idled for %d iterations; %s", nParked, ip, lim, stable, gdesc)
+						abandon()
+						break CONTROL
+					}
+					stable = 1
 				}
 				if stable >= 1 && nParked > 0 && nParked >= want && dn >= fin {
 					// quiescent point
@@ -1402,8 +1453,12 @@ func RetriesFor(spec *Spec, m *Model, gi, t int) int {
 
 // TaskSuffix - appended to graph names and task IDs (a percent sign must survive every message the library formats).
 func TaskSuffix(spec *Spec) string {
+	sfx := ""
 	if spec.Percent {
-		return "%d50%"
+		sfx = "%d50%"
 	}
-	return ""
+	if spec.Space {
+		sfx += " "
+	}
+	return sfx
 }
